@@ -5,6 +5,7 @@ package main
 
 import (
 	"fmt"
+	"math"
 	"strings"
 
 	"github.com/evolbioinfo/goalign/align"
@@ -16,16 +17,16 @@ import (
 // all scores are dyadic rationals (multiples of 1/4 in a small range): float arithmetic
 // is exact and equality of scores is meaningful.
 var exhSchemes = []scheme{
-	{"", 1, -1, -10, -0.5},      // goalign's defaults for gaps: gaps never pay on tiny inputs
-	{"", 2, -1, -2, -0.5},       // gaps pay
-	{"", 4, -1, -2, -0.5},       // open > -match: gaps in the first row / column pay (defect #21 of DESIGN.md)
-	{"", 1, -1, -1, -1},         // linear gaps
-	{"", 5, -4, -3, -0.25},      // cheap extension
-	{"", 3, -2, -1.5, -1.5},     // linear, fractional
-	{"", 8, -0.25, -0.5, -0.25}, // everything is cheap: long alignments
-	{"dnafull", 0, 0, -10, -0.5},
-	{"dnafull", 0, 0, -4, -1},
-	{"dnafull", 0, 0, -1, -0.25},
+	{Matrix: "", Match: 1, Mismatch: -1, Open: -10, Extend: -0.5},      // goalign's defaults for gaps: gaps never pay on tiny inputs
+	{Matrix: "", Match: 2, Mismatch: -1, Open: -2, Extend: -0.5},       // gaps pay
+	{Matrix: "", Match: 4, Mismatch: -1, Open: -2, Extend: -0.5},       // open > -match: gaps in the first row / column pay (defect #21 of DESIGN.md)
+	{Matrix: "", Match: 1, Mismatch: -1, Open: -1, Extend: -1},         // linear gaps
+	{Matrix: "", Match: 5, Mismatch: -4, Open: -3, Extend: -0.25},      // cheap extension
+	{Matrix: "", Match: 3, Mismatch: -2, Open: -1.5, Extend: -1.5},     // linear, fractional
+	{Matrix: "", Match: 8, Mismatch: -0.25, Open: -0.5, Extend: -0.25}, // everything is cheap: long alignments
+	{Matrix: "dnafull", Match: 0, Mismatch: 0, Open: -10, Extend: -0.5},
+	{Matrix: "dnafull", Match: 0, Mismatch: 0, Open: -4, Extend: -1},
+	{Matrix: "dnafull", Match: 0, Mismatch: 0, Open: -1, Extend: -0.25},
 }
 
 // further exhaustive sub-spaces over letters whose scores under the matrices differ on the diagonal
@@ -37,9 +38,9 @@ type exhSet struct {
 }
 
 var exhSets = []exhSet{
-	{"AWT", []scheme{{"dnafull", 0, 0, -4.25, -0.25}, {"dnafull", 0, 0, -6, -0.25}, {"dnafull", 0, 0, -2, -1}, {"dnafull", 0, 0, -4.5, -0.5}}, stringsOver("AWT", 4)},
-	{"EZP", []scheme{{"blosum62", 0, 0, -1.25, -0.25}, {"blosum62", 0, 0, -10, -0.5}, {"blosum62", 0, 0, -4, -0.5}, {"blosum62", 0, 0, -2, -1}}, stringsOver("EZP", 4)},
-	{"EQLF", []scheme{{"blosum62", 0, 0, -3.25, -0.25}, {"blosum62", 0, 0, -1.25, -0.25}}, stringsOver("EQLF", 4)},
+	{"AWT", []scheme{{Matrix: "dnafull", Match: 0, Mismatch: 0, Open: -4.25, Extend: -0.25}, {Matrix: "dnafull", Match: 0, Mismatch: 0, Open: -6, Extend: -0.25}, {Matrix: "dnafull", Match: 0, Mismatch: 0, Open: -2, Extend: -1}, {Matrix: "dnafull", Match: 0, Mismatch: 0, Open: -4.5, Extend: -0.5}}, stringsOver("AWT", 4)},
+	{"EZP", []scheme{{Matrix: "blosum62", Match: 0, Mismatch: 0, Open: -1.25, Extend: -0.25}, {Matrix: "blosum62", Match: 0, Mismatch: 0, Open: -10, Extend: -0.5}, {Matrix: "blosum62", Match: 0, Mismatch: 0, Open: -4, Extend: -0.5}, {Matrix: "blosum62", Match: 0, Mismatch: 0, Open: -2, Extend: -1}}, stringsOver("EZP", 4)},
+	{"EQLF", []scheme{{Matrix: "blosum62", Match: 0, Mismatch: 0, Open: -3.25, Extend: -0.25}, {Matrix: "blosum62", Match: 0, Mismatch: 0, Open: -1.25, Extend: -0.25}}, stringsOver("EQLF", 4)},
 }
 
 func stringsOver(letters string, maxLen int) []string {
@@ -238,11 +239,19 @@ func checkPair(c *mon.Case, a, b string, sc scheme, useBrute bool) (opt float64,
 	// score
 	if opt > 0 {
 		got := s.scoreAlignment(r.row1, r.row2)
-		if got != r.max {
+		// dyadic schemes: exact; schemes with scores such as -0.6 (not representable): equal up to the rounding of a
+		// few hundred additions
+		same := func(x, y float64) bool {
+			if !sc.Inexact {
+				return x == y
+			}
+			return math.Abs(x-y) <= 1e-7*(1+math.Abs(x)+math.Abs(y))
+		}
+		if !same(got, r.max) {
 			fail("reported-score-is-not-the-score-of-the-alignment", "returned alignment scores %v; %s", got, desc())
 			return
 		}
-		if r.max != opt {
+		if !same(r.max, opt) {
 			fail("not-optimal", "returned alignment scores %v; %s", got, desc())
 			return
 		}
@@ -296,6 +305,16 @@ func runExhaustive(c *mon.Case) {
 }
 
 func randScheme(r *gen.Rand, kind string) scheme {
+	if r.Chance(0.08) {
+		// scores a user types and a float cannot hold exactly (sums depend on the order of the additions in their last bits)
+		sc := scheme{Matrix: kind, Inexact: true}
+		if r.Bool() {
+			sc = scheme{Match: r.PickF([]float64{1, 0.7, 4.5, 1.1}), Mismatch: -r.PickF([]float64{1, 0.9, 0.3}), Inexact: true}
+		}
+		sc.Extend = -r.PickF([]float64{0.6, 0.1, 0.3, 0.7})
+		sc.Open = sc.Extend - r.PickF([]float64{0, 1.7, 2.3, 0.1, 9.4})
+		return sc
+	}
 	if r.Chance(0.45) {
 		// dyadic values: every score is exact in floating point; some finer than 1/100 (a score "tidied" to two
 		// decimals is then another number)
@@ -546,25 +565,28 @@ func runWitness(c *mon.Case) {
 		a, b string
 		sc   scheme
 	}
-	def := scheme{"", 1, -1, -10, -0.5}
+	def := scheme{Matrix: "", Match: 1, Mismatch: -1, Open: -10, Extend: -0.5}
 	ws := []w{
 		{"A", "A", def},     // #19: maximum on the first cell
 		{"AT", "CA", def},   // #19: maximum in the first column
 		{"CAA", "GAA", def}, // #20: trace-back must stop on a null border cell
-		{"ACG", "AGAG", scheme{"", 4, -1, -2, -0.5}}, // #21: gap opened from the first row
-		{"AGAG", "ACG", scheme{"", 4, -1, -2, -0.5}},
-		{"AAGA", "AA", scheme{"", 4, -1, -2, -0.5}},
-		{"GATTACA", "GATACA", scheme{"", 2, -1, -2, -0.5}},
-		{"ACGTACGTTTGACGT", "ACGTACGTGACGT", scheme{"dnafull", 0, 0, -10, -0.5}},
-		{"HEAGAWGHEE", "PAWHEAE", scheme{"blosum62", 0, 0, -10, -0.5}},
-		{"HEAGAWGHEE", "PAWHEAE", scheme{"blosum62", 0, 0, -2, -0.5}},
+		{"ACG", "AGAG", scheme{Matrix: "", Match: 4, Mismatch: -1, Open: -2, Extend: -0.5}}, // #21: gap opened from the first row
+		{"AGAG", "ACG", scheme{Matrix: "", Match: 4, Mismatch: -1, Open: -2, Extend: -0.5}},
+		{"AAGA", "AA", scheme{Matrix: "", Match: 4, Mismatch: -1, Open: -2, Extend: -0.5}},
+		{"GATTACA", "GATACA", scheme{Matrix: "", Match: 2, Mismatch: -1, Open: -2, Extend: -0.5}},
+		{"ACGTACGTTTGACGT", "ACGTACGTGACGT", scheme{Matrix: "dnafull", Match: 0, Mismatch: 0, Open: -10, Extend: -0.5}},
+		{"HEAGAWGHEE", "PAWHEAE", scheme{Matrix: "blosum62", Match: 0, Mismatch: 0, Open: -10, Extend: -0.5}},
+		{"HEAGAWGHEE", "PAWHEAE", scheme{Matrix: "blosum62", Match: 0, Mismatch: 0, Open: -2, Extend: -0.5}},
 		// running gap of the first row / column lost when the previous border cell is a (worse) fresh match (fixed by 8d59b93)
-		{"EF", "EQLF", scheme{"blosum62", 0, 0, -3.25, -0.25}},
-		{"EQLF", "EF", scheme{"blosum62", 0, 0, -3.25, -0.25}},
-		{"AKEYFWDLVVNIPDNMAHIN", "EM", scheme{"blosum62", 0, 0, -1.25, -0.25}},
+		{"EF", "EQLF", scheme{Matrix: "blosum62", Match: 0, Mismatch: 0, Open: -3.25, Extend: -0.25}},
+		{"EQLF", "EF", scheme{Matrix: "blosum62", Match: 0, Mismatch: 0, Open: -3.25, Extend: -0.25}},
+		{"AKEYFWDLVVNIPDNMAHIN", "EM", scheme{Matrix: "blosum62", Match: 0, Mismatch: 0, Open: -1.25, Extend: -0.25}},
 		{"AANAA", "AAXAA", def}, // N facing X is a mismatch under match / mismatch scoring
 		{"C", "G", def}, // no positive local alignment at all
-		{"acgtNNacgt", "ACGTACGT", scheme{"dnafull", 0, 0, -3, -1}},
+		{"acgtNNacgt", "ACGTACGT", scheme{Matrix: "dnafull", Match: 0, Mismatch: 0, Open: -3, Extend: -1}},
+		// gap scores a float cannot hold exactly: the trace-back missed the end of the gap run (fixed by cbf530f)
+		{"CAAGGCGGCTGGCCTTGATTACCGTTACTTTA", "GAAGGCGGCTGTGATTAACCTTACTTTA", scheme{Match: 1, Mismatch: -1, Open: -2.3, Extend: -0.6, Inexact: true}},
+		{"GCAGTAGGAAAGCCTGTATCCTTGAGTTAGAATCCAAGTATTTGCCCAGTGCGCAGAACC", "GCAGTAGGAAAGCCTGTATCTTTTTAGAATCCAAGTATTTGCTCATTGAGCCGATCC", scheme{Match: 1, Mismatch: -1, Open: -2.3, Extend: -0.6, Inexact: true}},
 	}
 	x := ws[c.Idx%len(ws)]
 	c.Input(map[string]interface{}{"s1": x.a, "s2": x.b, "scheme": x.sc})
@@ -575,7 +597,7 @@ func runWitness(c *mon.Case) {
 
 func main() {
 	mon.SetNote("rule", "case = (s1, s2, scoring scheme) through align.NewPwAligner(ALIGN_ALGO_SW)+Set*+Alignment(), one aligner object per call. `exhaustive`: every ordered pair of strings over {A,C,G} of length 1..4 (120 x 120) under 10 schemes (7 match/mismatch schemes with affine or linear gaps incl. open > -match, 3 DNAfull schemes), each pair also solved by brute-force enumeration of all local alignments; `random-nt` / `random-aa`: random, related (substitutions + indels + flanks), substring-at-an-end, single-residue and single-long-gap pairs up to 60 residues (250 in thorough) over ACGT / IUPAC+U / two letters / 20 amino acids / + B Z X *, both cases with the matrices, random dyadic schemes (match/mismatch or DNAfull / BLOSUM62, open <= extend < 0). Oracles per pair: rows of equal length, no all-gap column, ungapped rows == the substrings delimited by the reported starts/ends, counts recomputed from the columns and adding up to Length, Alignment() object == Seq1Ali/Seq2Ali, inputs unchanged, and when the Gotoh optimum is > 0: MaxScore == score of the returned rows (own scorer) == optimum. `inputs`: both algorithms of the aligner (plain and anchored at the start of the first sequence), succeeding and failing calls (a residue without matrix entry, nucleotide against protein): the two input sequences are bit-identical afterwards. Non-trivial = optimum > 0 and (the alignment contains a gap or starts in the first row/column of the DP matrix); distinct = (s1, s2, scheme). `concurrent` (-race build): 2..8 goroutines, each aligning its own pair with its own aligner object 6 times at GOMAXPROCS 1..16 (long low-complexity pairs, common prefix + unrelated tails, related pairs): no race report and the result of the same call made alone. `cli`: `goalign sw` through the binary built from the tree under test: a FASTA file with two sequences (generators of random-nt / random-aa), --match and --mismatch both / only one / none, --gap-open and --gap-extend both / only one / none (documented defaults -10 / -0.5 / match 1 / mismatch -1), -l log, -o or stdout, output as fasta / -p (+ --output-strict / --one-line / --no-block) / -x / -u / -k; the alignment written is read back and must have two rows of equal length named as the input, no all-gap column, ungapped rows that are substrings of the inputs, and (when the Gotoh optimum under the CONFIGURED scheme is > 0) the score of the rows written == optimum; with -l: positions, length, counts and rows of the log agree with the rows written and the logged score == optimum; one / three sequences, an empty or missing file, an unknown flag, a non numeric score must end with an error message and a non zero status.")
-	mon.SetNote("assumptions", "scores are dyadic rationals so float equality is exact;; gap run of g columns costs open + (g-1)*extend, a gap in the other row starts a new run;; with SetScore two residues match iff their bytes are equal, with a matrix letters are case-folded (as the aligner documents);; NbMatches may count a letter facing its other-case form as a match or as a mismatch (statement silent), gap columns are counted exactly;; the score of a residue pair under a built-in matrix is read from the table the binary was built with (verif hook VerifSubstMatrix), and that table is compared entry by entry with the published EDNAFULL / BLOSUM62 typed in mon/c09/ref.go (goalign's additions: U scores like T, X like N in DNAfull);; Gotoh DP and brute force are the trusted oracles (they must agree with each other on every tiny pair, otherwise the harness panics);; empty sequences and nucleotide-vs-protein pairs are outside the quantifier;; cli: the scheme the user configured is read from the help text of `goalign sw`: substitution matrix (blosum62 / dnafull by the alphabets of the two sequences; letters common to both alphabets make a nucleotide sequence as AutoAlphabet documents) if neither --match nor --mismatch is given, else match / mismatch with the documented default (1 / -1) for the one left out; gap scores default to -10 / -0.5;; cli: the log prints the score with two decimals: generated scores are multiples of 1/4;; cli: Nexus / Clustal / Stockholm outputs are read back with goalign's own parsers (property C02) and only asked for plain upper case residues")
+	mon.SetNote("assumptions", "scores are dyadic rationals so float equality is exact, except in the 8 % of random schemes built from decimals such as -0.6 / -2.3 / 0.7 (scores then compared within 1e-7 relative; added after the defect repaired in cbf530f);; gap run of g columns costs open + (g-1)*extend, a gap in the other row starts a new run;; with SetScore two residues match iff their bytes are equal, with a matrix letters are case-folded (as the aligner documents);; NbMatches may count a letter facing its other-case form as a match or as a mismatch (statement silent), gap columns are counted exactly;; the score of a residue pair under a built-in matrix is read from the table the binary was built with (verif hook VerifSubstMatrix), and that table is compared entry by entry with the published EDNAFULL / BLOSUM62 typed in mon/c09/ref.go (goalign's additions: U scores like T, X like N in DNAfull);; Gotoh DP and brute force are the trusted oracles (they must agree with each other on every tiny pair, otherwise the harness panics);; empty sequences and nucleotide-vs-protein pairs are outside the quantifier;; cli: the scheme the user configured is read from the help text of `goalign sw`: substitution matrix (blosum62 / dnafull by the alphabets of the two sequences; letters common to both alphabets make a nucleotide sequence as AutoAlphabet documents) if neither --match nor --mismatch is given, else match / mismatch with the documented default (1 / -1) for the one left out; gap scores default to -10 / -0.5;; cli: the log prints the score with two decimals: generated scores are multiples of 1/4;; cli: Nexus / Clustal / Stockholm outputs are read back with goalign's own parsers (property C02) and only asked for plain upper case residues")
 	mon.SetNote("exhaustive_subspaces", "all 14400 ordered pairs of strings over {A,C,G} with lengths 1..4 x 10 scoring schemes (both tiers), and all ordered pairs over {A,W,T} (DNAfull, 4 gap schemes), {E,Z,P} (BLOSUM62, 4) and {E,Q,L,F} (BLOSUM62, 2 schemes, 340 x 340 pairs) with lengths 1..4, each checked against Gotoh and brute force; all entries of both substitution tables")
 	mon.Floor("exhaustive-pairs", 144000)
 	mon.Floor("brute-force-agreed-with-gotoh", 144000)
@@ -611,7 +633,7 @@ func main() {
 	mon.Floor("cli:alignment-with-gap", 15)
 	mon.Floor("concurrent:alignments", 3000)
 	mon.Main("C09", []mon.Sub{
-		{Name: "witness", Quick: 16, Thorough: 16, Run: runWitness},
+		{Name: "witness", Quick: 18, Thorough: 18, Run: runWitness},
 		{Name: "tables", Quick: 2, Thorough: 2, Run: runTables},
 		{Name: "exhaustive", Quick: len(exhSchemes) * len(exhStrings), Thorough: len(exhSchemes) * len(exhStrings), Run: runExhaustive},
 		{Name: "exhaustive-matrix", Quick: nExhMatrixCases(), Thorough: nExhMatrixCases(), Run: runExhaustiveMatrix},
